@@ -359,7 +359,7 @@ def close_deep_abs(a, b, atol):
     return close(a, b) or abs(float(a) - float(b)) <= atol * max(1.0, abs(float(a)), abs(float(b)))
 
 
-def compare_run(r, m, alg):
+def compare_run(r, m, alg, rel=REL):
     """'' if the model's run `m` (bit strings) agrees with the implementation's `r`."""
     if len(r["kkt"]) != m["iters"]:
         return f"iterations: implementation {len(r['kkt'])}, model {m['iters']}"
@@ -369,19 +369,18 @@ def compare_run(r, m, alg):
         return f"nViolations: implementation {r['nViol']}, model {m['nViol']}"
     # a KKT value is |min(m, 1 - phi)| with phi of order one: near convergence it is a cancelled
     # difference, so it is compared absolutely (1e-7) on top of the relative tolerance
-    if not all(close(a, b) or abs(a - b) <= 1e-7 for a, b in zip(r["kkt"], ub(m["kkt"]))):
+    if not all(close(a, b, rel) or abs(a - b) <= 1e-7 for a, b in zip(r["kkt"], ub(m["kkt"]))):
         return f"kktViolations: implementation {r['kkt']}, model {ub(m['kkt'])}"
-    if not close(r["obj"], unbits(m["obj"])):
+    if not close(r["obj"], unbits(m["obj"]), rel):
         return f"obj: implementation {r['obj']!r}, model {unbits(m['obj'])!r}"
-    atol = 0.0
     mw, mf = ub(m["model"]["weights"]), ub(m["model"]["factors"])
-    if close_deep_abs(r["weights"], mw, atol) and close_deep_abs(r["factors"], mf, atol):
+    if close_deep(r["weights"], mw, rel) and close_deep(r["factors"], mf, rel):
         return ""
     a = canon_components(r["weights"], r["factors"])
     b = canon_components(mw, mf)
-    if close_deep_abs(a[0], b[0], atol) and close_deep_abs(a[1], b[1], atol):
+    if close_deep(a[0], b[0], rel) and close_deep(a[1], b[1], rel):
         return ""
-    return "returned model differs from the model's beyond 1e-9"
+    return f"returned model differs from the model's beyond {rel:g}"
 
 
 # ----------------------------------------------------------------------------
@@ -530,7 +529,7 @@ class Runs(Family):
                 if ci in bad:
                     out[ci] = Verdict("corr", bad[ci], pend.impl, pend.model, None, tags)
                 else:
-                    out[ci] = Verdict("ok", "", pend.impl, None, None, tags + ["rounding-tie"], True)
+                    out[ci] = Verdict("ok", "", pend.impl, None, None, tags + [v[3]], True)
         return out
 
     def judge(self, c, runs, ms):
@@ -566,11 +565,16 @@ class Runs(Family):
                 mm = None if "ok" not in m else {"iters": m["ok"]["iters"], "nInner": m["ok"]["nInner"],
                                                  "kkt": ub(m["ok"]["kkt"])}
                 v = Verdict("corr", f"maxiters={k}: {what}", r, mm, None, tags)
-                if not tie:
+                # not a tie: rounding differences amplified by an ill-conditioned row problem are accepted
+                # when the run still agrees to 1e-5 with identical decision fields -- and, like the tie
+                # case, only if every line search agrees one step at a time (second phase)
+                amplified = (not tie) and c["alg"] != "mu" and "ok" in m and \
+                    compare_run(r, m["ok"], c["alg"], 1e-5) == ""
+                if not tie and not amplified:
                     return v
                 if pending is None:
                     firm = [cl for cl in calls if cl["margin"] >= TIE]
-                    pending = (v, firm[:80], tags)
+                    pending = (v, firm[:80], tags, "rounding-tie" if tie else "amplified-rounding")
             # runs from one start are prefixes of one another until one of them stops early
             if prev is not None and len(prev["kkt"]) == k - 1:
                 if prev["kkt"] != r["kkt"][:k - 1] or prev["nInner"] != r["nInner"][:k - 1]:
@@ -583,7 +587,7 @@ class Runs(Family):
         if any(cl["margin"] < TIE for run in runs for cl in run[4]):
             tags.append("has-tie-call")
         if pending is not None:
-            return (pending[0], pending[1], tags)
+            return (pending[0], pending[1], tags, pending[3])
         return Verdict("ok", "", {"iters": len(last_ok["kkt"]), "obj": last_ok["obj"], "nInner": last_ok["nInner"]},
                        None, None, tags, True)
 
